@@ -272,6 +272,9 @@ func c10CLI(c *fw.Ctx) fw.Outcome {
 	if len(cs) == 0 {
 		cs = []tcue{{0, 1e9, "text a"}}
 	}
+	if r.P(1, 3) {
+		f += r.I64n(1e6) // a period that is not a whole number of milliseconds: the file then holds the cuts truncated
+	}
 	in := filepath.Join(c.TmpDir(), "in.srt")
 	out := filepath.Join(c.TmpDir(), "out.srt")
 	os.WriteFile(in, []byte(simpleSRT(cs)), 0o644)
@@ -286,6 +289,9 @@ func c10CLI(c *fw.Ctx) fw.Outcome {
 		return fw.Bad(key, nil, "CLI fragment output unreadable: %v", err)
 	}
 	exp := c10Spec(cs, f)
+	for k := range exp {
+		exp[k].S, exp[k].E = exp[k].S/1e6*1e6, exp[k].E/1e6*1e6 // SubRip holds milliseconds
+	}
 	g := cuesOf(got.Items)
 	for k := 1; k < len(g); k++ {
 		if g[k].S < g[k-1].S {
